@@ -26,7 +26,7 @@ PM = "cozy_chess::board::movegen::piece_moves::"
 PANIC_TABLE = {
     ("Board::king", "expect", "bitboard::BitBoard::next_square"):
         "every accepted board has exactly one king per colour (C06 board gate)",
-    ("Board::target_squares", "unwrap", "bitboard::BitBoard::next_square"):
+    ("<target-squares>", "unwrap", "bitboard::BitBoard::next_square"):
         "only instantiated with IN_CHECK=true when exactly one checker exists (dispatch rule of this property)",
     ("get_bishop_moves", "assert", "BoundsCheck"):
         "C05: index function stays inside the slider table for every occupancy (audited)",
@@ -52,6 +52,15 @@ def roots():
             "<" + PM + "PieceMoves as core::iter::traits::collect::IntoIterator>::into_iter"]
 
 
+def role_table(f):
+    """the panic table with the private target-square helper named as it is called today"""
+    from .names import names as _names
+    from ..panics import short as _short
+    tab = dict(PANIC_TABLE)
+    tab[(_short(_names(f).target_squares), "unwrap", "bitboard::BitBoard::next_square")] = tab.pop(("<target-squares>", "unwrap", "bitboard::BitBoard::next_square"))
+    return tab
+
+
 def run(ctx):
     ctx.explanation = __doc__
     for cfg in (["A"] if ctx.tier == "quick" else ["A", "C"]):
@@ -73,7 +82,7 @@ def run(ctx):
         ctx.rule("panic-audit" + sfx)
         a = panics.Audit(f, tgens={movegen.tparam(f): list(movegen.slider_types(f).values())}).run(roots())
         ctx.analysed += a.analysed[:60]
-        n = panics.report(ctx, a, PANIC_TABLE, "panic")
+        n = panics.report(ctx, a, role_table(f), "panic")
         ctx.floor("panic sites audited", n, 30)
     # the position state the generators read (castle rights, en-passant file, checkers, pins) is produced by
     # play_unchecked / null_move; a history-level break of move generation can sit there (C02, C03 own the rules)
